@@ -267,7 +267,7 @@ func genC12(repo string) (string, error) {
 		{fit, "fitWorker", "compareBest"}, {fit, "fitWorker", "updateOrphanPeers"},
 		{fit, "", "newRuleFit"}, {fit, "fitPeer", "matchRoleLoose"}, {fit, "", "isolationScore"},
 		{lc, "", "isExclusiveLabel"}, {lc, "", "MatchLabelConstraints"},
-		{rm, "", "checkRule"},
+		{rm, "", "checkRule"}, {rm, "RuleManager", "FitRegion"},
 		{st, "StoreInfo", "GetLabelValue"}, {st, "StoreInfo", "CompareLocation"},
 	} {
 		fd, err := b.f.Func(b.recv, b.name)
